@@ -182,9 +182,14 @@ def _count_lines(path):
     return n
 
 
-def run_impl(cases, out, idle_limit=90):
+IDLE_LIMIT = 90
+
+
+def run_impl(cases, out, idle_limit=None):
     """Supervised execution of `hx run`: an abort (stack overflow, allocation failure) or a hang is attributed to the
     exact line; the worker is restarted after it. Returns list of (line_index, 'abort'|'hang')."""
+    if idle_limit is None:
+        idle_limit = IDLE_LIMIT
     if os.path.exists(out):
         os.remove(out)
     total = _count_lines(cases)
@@ -225,7 +230,12 @@ def run_impl(cases, out, idle_limit=90):
         start = done + 1
         if start >= total:
             break
-        if len(incidents) > 200:
+        # every hang costs `idle_limit` seconds: after the second one in a chunk (or 200 aborts) the rest of the chunk is
+        # not run - the incidents found are reported, the remaining lines are marked and skipped by the judge
+        if len(incidents) > 200 or sum(1 for _, k in incidents if k == "hang") >= 2:
+            with open(out, "a") as f:
+                for _ in range(total - start):
+                    f.write("not-run\n")
             break
     return incidents
 
